@@ -4,7 +4,9 @@ for l in open('/verif/properties.jsonl'):
     d = json.loads(l)
     if d['id'] == pid:
         break
-wt = f"/tmp/mut/{pid}"
+rnd = sys.argv[2] if len(sys.argv) > 2 else ""
+avoid = sys.argv[3] if len(sys.argv) > 3 else ""
+wt = f"/tmp/mut{rnd}/{pid}"
 print(f"""You are helping evaluate a verification effort by producing a realistic *seeded defect* for the open-source Python library xarray-contrib/flox (groupby reductions for numpy/dask arrays).
 
 You have your own scratch git worktree of the repository at {wt} (work ONLY there; never touch /repo or /verif; do not read anything under /verif). Run Python as `cd {wt} && PYTHONPATH={wt} PYTHONHASHSEED=0 /venv/bin/python ...` so that `import flox` picks up your worktree (check with `python -c "import flox; print(flox.__file__)"`). There is no network.
@@ -26,4 +28,4 @@ Deliverables (all inside {wt}): the source change left applied in the worktree (
 
 To test demo.py on the original code, use `git -C {wt} stash` / `git -C {wt} stash pop` around it (be careful to restore your change), or apply/reverse the patch with `git apply -R patch.diff` then `git apply patch.diff`.
 
-Prefer a subtle change in the mechanism named by the anchors above. Do not modify tests. Do not add new files to the library. Keep the change under ~15 lines. When finished, reply with a 5-line summary (what changed, what is needed to trigger, test results before/after).""")
+Prefer a subtle change in the mechanism named by the anchors above.{(" Another seeded defect already exists in " + avoid + "; choose a DIFFERENT function and a different way of breaking the property (another clause of the statement if it has several).") if avoid else ""} Do not modify tests. Do not add new files to the library. Keep the change under ~15 lines. When finished, reply with a 5-line summary (what changed, what is needed to trigger, test results before/after).""")
